@@ -10,11 +10,47 @@ def log(*a):
 
 
 # ------------------------------------------------------------------ obligations (theorems)
+PARSE_CHECKS = {"corr_parse", "corr_parse_shape", "corr_C20", "spec_C20"}
+NO_VALIDATION_MODEL = PARSE_CHECKS | {"corr_C12", "corr_C15", "corr_C16", "corr_C19"}
+
+
+def coq_closure(files):
+    """the .v files (relative to coq/) that the given files import, transitively"""
+    seen, todo = set(), list(files)
+    while todo:
+        f = todo.pop()
+        if f in seen or not os.path.exists(os.path.join(core.COQ, f)):
+            continue
+        seen.add(f)
+        src = re.sub(r"\(\*.*?\*\)", "", open(os.path.join(core.COQ, f)).read(), flags=re.S)
+        for m in re.finditer(r"From\s+AidlV\s+Require\s+(?:Import|Export)\s+([^.]*(?:\.[A-Za-z_][^.\s]*)*)\s*\.", src):
+            for mod in m.group(1).split():
+                todo.append(mod.replace(".", "/") + ".v")
+    return seen
+
+
+def gen_deps(P):
+    """the regenerated files this property's theorems and correspondence checks rest on"""
+    deps = {os.path.basename(f) for f in coq_closure(P["coq_files"]) if f.startswith("Gen/")}
+    checks = {c for _, _, cs in P["runs"] for c in cs}
+    if checks & PARSE_CHECKS:
+        deps |= {"LexTable.v", "LrTables.v", "ParseActions.v"}
+    if any(c.startswith("corr_") and c not in NO_VALIDATION_MODEL for c in checks) or \
+            any(c.startswith("spec_C0") or c in ("spec_C10", "spec_C17_refs") for c in checks):
+        deps |= {"ValTables.v", "Builtins.v"}
+    if "corr_C19" in checks:
+        deps |= {"SerdeSpec.v"}
+    return deps
+
+
 def check_obligations(prop, P):
     """build the property's Coq targets; returns (obligations, broken list, assumptions)"""
     broken = []
     t_errors = core.regenerate()
-    broken += t_errors
+    deps = gen_deps(P)
+    # a translator that no longer understands the source breaks only the properties resting on what it regenerates
+    broken += [e for e in t_errors if any(e.startswith(f"translate:{d}") for d in deps)
+               or (e.startswith("translate:lalrpop") and "LrTables.v" in deps)]
     bad = core.hygiene()
     broken += [f"hygiene:{b}" for b in bad]
     targets = [f[:-2] + ".vo" for f in P["coq_files"]] + ["Run/Harness.vo"]
@@ -163,7 +199,7 @@ def shrink(prop, P, case, check, kind, budget_s=40):
         return case        # the oracle's ground truth is tied to this exact text
     t0 = time.time()
     best = dict(case)
-    if "files" in best and best["files"]:
+    if "files" in best and best["files"] and not best.get("ops"):
         # drop whole files
         changed = True
         while changed and time.time() - t0 < budget_s:
@@ -387,7 +423,7 @@ def finish(prop, tier, seed, P, t0, nviol, obl, cases, findings, broken, assumpt
         "trusted_base": P["trusted_base"],
         "theorems": list(theorems), "print_assumptions": assumptions, "broken": broken,
         "evaluations": len(cases), "distinct_nontrivial": len(distinct),
-        "rule": P["rule"], "samples": samples if samples else [{"note": "no cases run"}],
+        "rule": P["rule"] + getattr(P["gen"], "rule_suffix", ""), "samples": samples if samples else [{"note": "no cases run"}],
         "correspondence_checks": [c for _, _, cs in P["runs"] for c in cs],
         "implementation_checks": P.get("x_checks", []),
         "findings": [dict(f) for f in findings[:10]],
